@@ -171,7 +171,7 @@ DEFAULT_FEATURES = dict(
     derived=True, cte=True, order=True, limit=True, offset_no_limit=False, order_expr=True,
     cast=True, concat=True, group_expr=True, where_false=True, case_no_else=False,
     corr_in_sub=False, neg=True, null_lit=True, sum_=True, derived_limit=False, agg_in_list=True, in_sub_expr=True,
-    sorted_join=True, join_mixed_key=True, order_hidden_pk=True, join_false_conjunct=True, bare_scan=True, join_mixed_num=True,
+    sorted_join=True, join_mixed_key=True, order_hidden_pk=True, join_false_conjunct=True, bare_scan=True, join_mixed_num=True, outer_notnull_test=True, derived_twins=True,
 )
 
 
@@ -212,7 +212,7 @@ class QueryGen:
 
     # ---- scopes: list of (sql_name, type, nullable)
     def table_scope(self, t, alias):
-        return [(f"{alias}.{c.name}", c.typ, c.nullable) for c in t.cols]
+        return [(f"{alias}.{c.name}", c.typ, c.nullable and not c.pk) for c in t.cols]
 
     def cols_of(self, scope, pred):
         return [s for s in scope if pred(s[1])]
@@ -402,7 +402,12 @@ class QueryGen:
             sj = self.sorted_join()
             if sj:
                 return sj
-        if self.on("derived", 0.12):
+        twins = None
+        if self.f.get("derived_twins") and self.rng2.random() < 0.06:
+            twins = self.derived_twins(t0, a0)
+        if twins:
+            sql, scope = twins
+        elif self.on("derived", 0.12):
             self.tag("derived")
             # (no constant predicates inside a derived table: `(x IS NULL) AND (1 > 2)` folds to a
             # constant select item, the known constant-column-through-outer-join finding)
@@ -500,6 +505,32 @@ class QueryGen:
                 sql += f" {k} {t1.name} AS {a1} ON " + " AND ".join(conds)
             scope = scope + s1
         return sql, scope
+
+    def derived_twins(self, t, a_out):
+        """(SELECT e AS c0, e' AS c1, (e' + 1) AS c2, col AS c3 FROM t) AS x where e and e' are one expression for the optimizer after
+        a rewrite (x + x / x * 2, x - 0 / x, x + y / y + x ...): select items that end up in one e-class while the outer query
+        uses only some of them (column pruning and push-down name columns by class)."""
+        r = self.rng2
+        ints = [c for c in t.cols if c.typ == "INT"]
+        if not ints:
+            return None
+        a_in = self.new_alias()
+        x = f"{a_in}.{r.choice(ints).name}"
+        y = f"{a_in}.{r.choice(ints).name}"
+        e, e2 = r.choice([(f"({x} + {x})", f"({x} * 2)"), (f"({x} - 0)", x), (f"({x} * 1)", x), (f"({x} + 0)", x), (f"(- (- {x}))", x),
+                          (f"({x} + {y})", f"({y} + {x})"), (f"({x} * {y})", f"({y} * {x})"), (f"({x} * ({y} + 1))", f"(({x} * {y}) + ({x} * 1))"),
+                          (f"(0 - {x})", f"(- {x})"), (f"({x} * -1)", f"(- {x})")])
+        if r.random() < 0.5:
+            e, e2 = e2, e
+        other = r.choice(t.cols)
+        items = [(e, "INT"), (e2, "INT"), (f"({e2} + 1)", "INT"), (f"{a_in}.{other.name}", other.typ)]
+        r.shuffle(items)
+        self.tag("derived")
+        self.tag("derived_twins")
+        for i, (it, _) in enumerate(items):
+            self.origin[f"{a_out}.c{i}"] = it
+        sel = ", ".join(f"{it} AS c{i}" for i, (it, _) in enumerate(items))
+        return f"(SELECT {sel} FROM {t.name} AS {a_in}) AS {a_out}", [(f"{a_out}.c{i}", ty, True) for i, (_, ty) in enumerate(items)]
 
     def sorted_join(self):
         """(SELECT k, v FROM a ORDER BY k [DESC]) AS x <join> (SELECT k, v FROM b ORDER BY k [DESC]) AS y ON x.k = y.k:
@@ -617,6 +648,17 @@ class QueryGen:
             p = self.subquery_pred(scope)
             if p:
                 where.append(p)
+        notnull_test = None
+        if self.f.get("outer_notnull_test") and ({"join:left", "join:right", "join:full"} & self.tags) and self.rng2.random() < 0.3:
+            # IS [NOT] NULL over a column that is declared NOT NULL / PRIMARY KEY, above an outer join: on the NULL-padded side the
+            # column is NULL all the same (the anti-join idiom `LEFT JOIN ... WHERE r.key IS NULL`)
+            nn = [c for c in scope if not c[2]]
+            if nn:
+                self.tag("outer_notnull_test")
+                notnull_test = f"({self.rng2.choice(nn)[0]} IS {'NOT ' if self.rng2.random() < 0.4 else ''}NULL)"
+                if self.rng2.random() < 0.6:
+                    where.append(notnull_test)
+                    notnull_test = None
         where_sql = (" WHERE " + " AND ".join(where)) if where else ""
         items, types = [], []
         group_sql = having_sql = ""
@@ -661,6 +703,9 @@ class QueryGen:
                 e, ty = self.any_expr(scope)
                 items.append(e)
                 types.append(ty)
+            if notnull_test:
+                items.append(notnull_test)
+                types.append("BOOLEAN")
             if self.on("distinct", 0.12):
                 self.tag("distinct")
                 distinct = "DISTINCT "
